@@ -7,11 +7,11 @@ CHECKS = {
 }
 
 CHECKS.update({
-    "C03": ("6/C03", "All schedules (gate releases, external sends, timer firings) of the engine catalog plus idle-specific programs; at the instant an idle announcement is written the runner's queues, in-progress sets, retry heap, tick buffer and mailbox are inspected; work conservation checked in every quiescent live state.",
+    "C03": ("6/C03", "All schedules (gate releases, external sends, timer firings) of the engine catalog plus idle-specific programs; at the instant an idle announcement is written the runner's queues, in-progress sets, retry heap, tick buffer and mailbox are inspected; work conservation checked in every quiescent live state; every retry wake-up must be delivered at the virtual instant it was scheduled for (programs include a workflow timeout plus two staggered retry delays).",
             "Three genuine defects are recorded in known_findings.json (idle announced with mail in the mailbox / during a retry delay); any other violation is reported.", ENGINE_TECH),
     "C04": ("6/C04", "21 outcome causes (stops, races, raises, handler failure, non-event return, failing user retry code, cancel and timeout at every quiescent point) x all schedules; each maximal execution is checked for exactly one outcome, one matching terminal event, nothing after it, and a terminating stream consumer.",
             "Bounded small-scope claim; deviation bound 4 on the largest race program in the quick tier.", ENGINE_TECH),
-    "C11": ("6/C11", "At every quiescent point of every schedule of the engine catalog (incl. resumed runs) the live runner state is compared with rebuild_state_from_ticks(init_state, recorded ticks) and with ctx.to_dict()/running_steps.",
+    "C11": ("6/C11", "At every quiescent point of every schedule of the engine catalog (incl. resumed runs, and runs continued from the context of a run that ended with work left over) the live runner state is compared with rebuild_state_from_ticks(init_state, recorded ticks) and with ctx.to_dict()/running_steps.",
             "Timestamps masked, as the property allows.", ENGINE_TECH),
     "C35": ("6/C35", "All schedules of the engine catalog; per processed tick PREPARING publications are compared with the queue growth, open RUNNING slots are compared with the runner's in-progress set in every quiescent live state, per-slot (RUNNING NOT_RUNNING)* language, InputRequiredEvent published once.",
             "Telemetry is tied to the runner's queue / in_progress sets (the anchors named by the property).", ENGINE_TECH),
@@ -26,12 +26,12 @@ CHECKS.update({
 })
 
 CHECKS.update({
-    "C02": ("6/C02", "Multi-accept graphs (overlapping exact types, subclass event, targeted/broadcast ctx.send_event, returned events, external sends, a waiting step that also accepts the awaited type) x all schedules within a deviation bound; per add-event tick the runner-state delta is compared with a dict router; body entries and UnhandledEvent reports are counted after a fan-in of every delivery.",
+    "C02": ("6/C02", "Multi-accept graphs (overlapping exact types, subclass event, targeted/broadcast ctx.send_event, returned events, external sends, a waiting step that also accepts the awaited type, field-for-field equal events queued behind a saturated step) x all schedules within a deviation bound; per add-event tick the runner-state delta is compared with a dict router; body entries and UnhandledEvent reports are counted after a fan-in of every delivery.",
             "Deviation bound 2-3 in the quick tier (stated per program in the evidence). Fix 068b360 repaired the targeted-waiter defect this check found.", ENGINE_TECH),
 })
 
 CHECKS.update({
-    "C09": ("6/C09", "Expected lists [A,B],[A,A,B],[A,B,C] x arrival multisets (surplus events, two rounds) x collector num_workers 1..4 x every completion order of the collecting invocations (+ a collecting step that fails once and is retried); the multiset of returned lists must equal the list-buffer reference on some serial order of the arrivals and no event may be in two lists.",
+    "C09": ("6/C09", "Expected lists [A,B],[A,A,B],[A,B,C],[A,A] x arrival multisets (surplus events, value-equal events tracked by identity, two rounds) x collector num_workers 1..4 x every completion order of the collecting invocations (+ a collecting step that fails once and is retried); the multiset of returned lists must equal the list-buffer reference on some serial order of the arrivals and no event may be in two lists.",
             "Linearizability against the sequential semantics, which the num_workers=1 programs bind to the implementation. One genuine defect (double completion from one snapshot) recorded.", ENGINE_TECH),
     "C10": ("6/C10", "Waits with/without requirements, timeouts, explicit/implicit ids, two sequential waits, concurrent inputs x response scripts (matching, duplicate, non-matching, subclass, early, late) x serialize+resume at every quiescent point x all arrival / timer / completion orders within the deviation bound.",
             "Two genuine root causes (match while a replay is in flight; rehydration of requirement waiters after resume) are recorded with root-cause context in the witness; violations outside those contexts or clauses alarm.", ENGINE_TECH),
@@ -43,7 +43,7 @@ CHECKS.update({
 })
 
 CHECKS.update({
-    "C08": ("6/C08", "Handler layouts {none, wildcard, scoped(owner/other), scoped+wildcard, two scoped, stopping / raising handlers} x max_recoveries 1..3 x re-entering lineages x two concurrent lineages x retries x disable_validation off/on x all schedules; routing vs a reference owner map, entries per lineage vs budget, outcome vs original exception + WorkflowFailedEvent, and both validation settings compared on the same schedule.",
+    "C08": ("6/C08", "Handler layouts {none, wildcard, scoped(owner/other), scoped+wildcard, two scoped, stopping / raising handlers} x max_recoveries 1..3 x re-entering lineages x two concurrent lineages x retries x disable_validation off/on x {single run; instance runs, a failing step is registered on its class, instance runs again} x all schedules; routing vs a reference owner map, entries per lineage vs budget, outcome vs original exception + WorkflowFailedEvent, and both validation settings compared on the same schedule.",
             "Fix cd45fa6 repaired the empty routing tables under disable_validation=True found by this check.", ENGINE_TECH),
 })
 
